@@ -50,7 +50,8 @@ def vectors(tier):
          # only the required parameters (all defaults), ties of three agents on either side
          c08.vec('spa', n1=1, n2=2, n3=2, pmin=1, pmax=1, uq=2, luq=2),
          c08.vec('ha', n1=1, n2=3, pmin=3, pmax=3, uq=3, t1=0.5),
-         c08.vec('hr', n1=3, n2=1, pmin=1, pmax=1, uq=3, twopl=True, t2=1.0)]
+         c08.vec('hr', n1=3, n2=1, pmin=1, pmax=1, uq=3, twopl=True, t2=1.0),
+         c08.vec('ha', n1=1, n2=4, pmin=4, pmax=4, uq=4, t1=1.0)]
     if tier == 'thorough':
         V += [c08.vec('hr', n1=2, n2=2, pmin=2, pmax=2, uq=3, twopl=True, t1=1.0, t2=0.5),
               c08.vec('ha', n1=2, n2=1, pmin=1, pmax=1, uq=1, t1=0.0),
